@@ -6,7 +6,8 @@ from . import c08, c09, c11
 
 ID = "C04"
 THEOREMS = ["C04_invariant_initial", "C04_every_command", "C04_every_command_stream", "C04_every_received_frame", "C04_window_end",
-            "C04_send_panics_only_on_api_misuse", "C04_send_keeps_invariant", "C04_join_request_never_panics", "C04_selection_never_panics"]
+            "C04_send_panics_only_on_api_misuse", "C04_send_keeps_invariant", "C04_join_request_never_panics", "C04_selection_never_panics",
+            "C04_async_send_never_panics_on_radio_input"]
 COVER = lambda r: c09.cover(r, 24)
 
 
@@ -254,6 +255,10 @@ def run(rep, tier, rng):
                 rep.violation(v, concrete=True)
     rep.cov["mac_histories_checked_for_panic_or_hang"] = len(lines)
     fl = nb_histories(rng, tier) + async_histories(rng, tier)
+    # both front-ends are modelled (Model/AsyncDev.v, Model/NbDev.v): model and implementation on the same histories
+    from .. import adevhist, ndevhist
+    fmod = fl + adevhist.histories(rng.fork('adev'), tier) + ndevhist.histories(rng.fork('ndev'), tier)
+    core.diff_stage(rep, 'X:C04:front-ends', fmod, lambda c, i, m: fe_oracle(c, i))
     fo = core.run_lines(core.harness_bin(), fl)
     bad = 0
     for c, o in zip(fl, fo):
